@@ -21,6 +21,7 @@ type obGen struct {
 	docs   map[string]J      // remote documents by IRI
 	inbox  map[string]string // actor -> document inbox
 	nested map[string]bool   // actors that appear inside some collection
+	anon   bool              // addressing may contain an embedded actor without id
 }
 
 func (g *obGen) build(emphasis string) {
@@ -40,8 +41,19 @@ func (g *obGen) build(emphasis string) {
 			in = g.inbox[fmt.Sprintf("https://%s/u/p%d", hostR, i-1)] // shared inbox
 		}
 		g.docs[id] = J{"@context": asCtx, "type": Pick(r, []string{"Person", "Service", "Group"}), "id": id, "inbox": in, "outbox": id + "/outbox"}
+		if r.Intn(6) == 0 {
+			// the inbox written out as an object (an OrderedCollection with an id) instead of a bare IRI
+			g.docs[id]["inbox"] = J{"type": "OrderedCollection", "id": in}
+		}
 		g.inbox[id] = in
 		g.actors = append(g.actors, id)
+		if r.Intn(6) == 0 {
+			// a second address for the same actor document (a profile alias): what is served there carries the canonical id
+			alias := fmt.Sprintf("https://%s/@p%d", hostR, i)
+			g.docs[alias] = g.docs[id]
+			g.inbox[alias] = in
+			g.actors = append(g.actors, alias)
+		}
 	}
 	g.actors = append(g.actors, g.st.Bob.ID, g.st.Carol.ID)
 	g.inbox[g.st.Bob.ID] = g.st.Bob.Inbox
@@ -106,6 +118,8 @@ func (g *obGen) address(max int) []interface{} {
 			out = append(out, Pick(r, []string{publicIRI, "as:Public"}))
 		case k == 10:
 			out = append(out, g.st.Alice.ID)
+		case k == 11 && g.anon && r.Intn(3) == 0:
+			out = append(out, J{"type": "Person", "name": "somebody without an id"}) // cannot be addressed: the post cannot be delivered as asked
 		default:
 			if len(out) > 0 {
 				out = append(out, out[r.Intn(len(out))]) // duplicate
@@ -239,7 +253,7 @@ func genOutbox(r *Rng, prop string, k int, tier string) *RunSpec {
 	}
 	o.QueryActor = prop == "C05" && r.Intn(3) == 0
 	st := newStd(o)
-	g := &obGen{r: r, st: st}
+	g := &obGen{r: r, st: st, anon: prop == "C03"}
 	g.build(prop)
 	// remote documents and fates
 	fate := map[string]string{}
@@ -754,6 +768,33 @@ func addressing(m J) J {
 
 // ---- C03 oracle (beyond the always-on wire / handler monitors) ---------------------------------
 
+// addressingUnusable: some to/bto/cc/bcc/audience entry (on the posted value or one of its embedded objects) has no id.
+func addressingUnusable(body []byte) bool {
+	m, err := parseJ(body)
+	if err != nil {
+		return false
+	}
+	bad := func(v J) bool {
+		for _, p := range fiveProps {
+			for _, e := range aslist(v[p]) {
+				if idOf(e) == "" {
+					return true
+				}
+			}
+		}
+		return false
+	}
+	if bad(m) {
+		return true
+	}
+	for _, o := range aslist(m["object"]) {
+		if om, ok := o.(map[string]interface{}); ok && bad(om) {
+			return true
+		}
+	}
+	return false
+}
+
 func oracleC03(c *DriveCtx, res *Result) {
 	// hidden recipients still receive the delivery: C02's model on the stored activity includes bto/bcc
 	s := res.Sim
@@ -767,8 +808,8 @@ func oracleC03(c *DriveCtx, res *Result) {
 			continue
 		}
 		res.faultedDeref, res.nestedFailed, res.faultTask = nil, nil, t.ID
-		if t.Err != nil && (nestedFailure(res, t) || !senderComplete(res, t)) {
-			continue // a peer refused the delivery, or the sender's own document is unusable: the post legitimately fails
+		if t.Err != nil && (nestedFailure(res, t) || !senderComplete(res, t) || addressingUnusable(t.Req.Body)) {
+			continue // a peer refused the delivery, the sender's own document is unusable, or somebody addressed has no id: the post legitimately fails
 		}
 		srv := s.World.Servers[t.Srv]
 		if !srv.Spec.Federating {
